@@ -537,6 +537,17 @@ def check_C10(ctx):
     ctx.assumptions.append("rendering of the message (line/column arithmetic) is covered by C12-C14's model; here the location and the attempt lists are checked")
 
 
+def pre_C06(ctx):
+    from . import tsrc
+    ok, msg = tsrc.regenerate()
+    ctx.ties["T-src:parser_state.rs"] = {"cases": 2, "agree": 2 if ok else 0, "observables": ["normalize_index", "constrain_idxs regenerated as Lean definitions; equality with the hand model is a proof obligation (Props/C06Src.lean)"]}
+    if not ok:
+        ctx.tie_broken("T-src:parser_state.rs", {"error": msg})
+
+
+PRE = {"C06": pre_C06}
+
+
 def _lazy(modname, fn):
     def run(ctx):
         import importlib
@@ -548,6 +559,9 @@ CHECKS = {
     "C12": _lazy("text", "check_C12"),
     "C13": _lazy("text", "check_C13"),
     "C14": _lazy("text", "check_C14"),
+    "C15": _lazy("acc", "check_C15"),
+    "C17": _lazy("acc", "check_C17"),
+    "C18": _lazy("acc", "check_C18"),
     "C01": check_C01,
     "C04": check_C04,
     "C05": check_C05,
